@@ -176,7 +176,7 @@ def main(argv=None):
             res.rule_stats[s.rid] = {"rule": s.rule.id, "instances": len(obs), "floor": s.rule.floor,
                                      "violations_unfiltered": len([o for o in obs if not o.ok]), "doc": s.rule.doc,
                                      "filter": s.include.pattern if s.include else None}
-            if len(obs) < s.rule.floor:
+            if len(obs) < s.rule.floor and not any(o.inconclusive for o in obs):
                 raise AnalysisError(f"rule {s.rid} ({s.rule.id}): {len(obs)} instance(s), floor {s.rule.floor}: anchor vanished or discovery broken")
             base_all |= violation_keys(obs)
             if s.include is not None:
